@@ -226,4 +226,21 @@ PROPS = {
                         "reassembling reader is the repaired code (fix: commit 'decode binary COPY rows independently of CopyData "
                         "boundaries').",
              technique="Lean 4 proof (simulation/refinement to a flat-stream decoder, induction on chunk and column lists) + differential correspondence"),
+    "C01": P("Pw.Props.C01",
+             ["Pw.Props.C01.C01_only_if", "Pw.Props.C01.C01_gate", "Pw.Props.C01.C01_class28", "Pw.Props.C01.C01_no_session"],
+             [("auth", 3000, 200000)], ["Startup", "Consts"],
+             design_ref="§7 C01",
+             level_text="Lean theorems for every configuration, handler set, startup packet and continuation: with an authentication "
+                        "strategy configured the connection gets past authentication ONLY IF the first message is a well-formed password "
+                        "message whose content the validator accepts (C01_only_if); in every other case (validator false or failing, "
+                        "other message type, malformed/oversized message, nothing more) the exchange has written nothing but the password "
+                        "request and at most one ErrorResponse (SQLSTATE 28P01 for a wrong password), no AuthenticationOk / "
+                        "ParameterStatus / ReadyForQuery, has run nothing but the validator, and ends the connection (or waits for the "
+                        "missing bytes) (C01_gate); the connection's whole result is then that of the authentication exchange, whatever "
+                        "bytes follow (C01_no_session). Tie: pinned serve() phase order and handleAuth call shape; differential campaign "
+                        "(accept/reject/fail x message kinds in place of the password x pipelined continuations); the oracle recomputes "
+                        "acceptance from the input and checks the real output, callbacks and connection fate.",
+             level_note="Trusted: Lean kernel; the scripted validator decides by password content; custom AuthStrategy implementations other "
+                        "than ClearTextPassword are out of scope.",
+             technique="Lean 4 proof (exhaustive case analysis of the authentication phase) + differential correspondence"),
 }
